@@ -28,7 +28,7 @@ from sim.streams import SimReader, SimWriter
 PROPERTY = 'C11'
 LEVEL = 'exploration'
 CASE_TIMEOUT = 180
-REPLAY_ATTEMPTS = 5      # a leak through id()-keyed state depends on address reuse, which the simulator does not own
+REPLAY_ATTEMPTS = 8      # a leak through id()-keyed state depends on address reuse, which the simulator does not own
 RULE = ('one evaluation = one step of a history (a complete call, a faulted or interrupted call, one generator step) or one '
         'document of a concatenated stream, each compared with its isolated reference; non-trivial = the step was preceded by '
         'at least one other call in the same process or document in the same stream; distinct = distinct (operation, '
